@@ -414,7 +414,7 @@ Lemma panic_isolated_holds progs ws s : reachable progs ws s -> panic_isolated s
 Proof.
   intro R. pose proof (inv_reachable _ _ _ R) as I. split; [apply (inv_esc _ _ I)|].
   split; [apply (inv_alive _ _ I)|].
-  intros c q' HA HQ. cbn [tstep]. rewrite HA, HQ. cbn [snd do_task run_closure].
+  intros c k q' HA HQ. cbn [tstep]. rewrite HA, HQ. cbn [snd]. rewrite do_task_ok.
   eexists. split; [reflexivity|]. sproj. repeat split. apply (inv_esc _ _ I).
 Qed.
 
@@ -1947,4 +1947,67 @@ Proof.
   pose proof (id_reachable progs ws c0 ls) as R. cbv zeta.
   split; [apply (exactly_once_safe_holds _ _ _ R)|]. split; [apply (exactly_once_quiescent_holds _ _ _ R)|].
   split; [apply (stopped_quiescent_holds _ _ _ R)|]. split; [apply (per_poster_fifo_holds _ _ _ R) | apply (panic_isolated_holds _ _ _ R)].
+Qed.
+
+(* ------------------------------------------------------------------ panic values *)
+(* [tstep] commutes with forgetting what closures panic with: the recover handler of doTask
+   treats every value alike. *)
+
+Lemma set_nth_map {A B} (f : A -> B) x : forall l i, set_nth i (f x) (map f l) = map f (set_nth i x l).
+Proof.
+  induction l as [|y l IH]; intro i; [destruct i; reflexivity|].
+  destruct i as [|i]; cbn; [reflexivity | rewrite IH; reflexivity].
+Qed.
+
+Lemma tstep_erase s t : tstep (st_erase s) t = option_map st_erase (tstep s t).
+Proof.
+  destruct t as [i| | |]; cbn [tstep st_erase queue stopped stop_pending alive posters executed accepted rejected escaped].
+  - rewrite nth_error_map. destruct (nth_error (posters s) i) as [[n [|k r]]|]; try reflexivity.
+    cbn [option_map poster_erase p_next p_rest map]. unfold post, chan_send. rewrite map_length.
+    destruct (stopped s).
+    + cbn [option_map]. unfold st_erase. sproj.
+      rewrite <- (set_nth_map poster_erase (mkP (S n) r)). reflexivity.
+    + destruct (Nat.ltb (length (queue s)) cap); [|reflexivity].
+      cbn [option_map]. unfold st_erase. sproj.
+      rewrite <- (set_nth_map poster_erase (mkP (S n) r)), map_app. reflexivity.
+  - destruct (alive s); [|reflexivity]. destruct (queue s) as [|it q']; [reflexivity|].
+    cbn [map item_erase snd]. rewrite !do_task_ok. cbn [option_map]. unfold st_erase. sproj.
+    rewrite map_app. reflexivity.
+  - destruct (stop_pending s); reflexivity.
+  - destruct (stopped s && alive s); reflexivity.
+Qed.
+
+Lemma run_sched_erase : forall sched s, st_erase (run_sched s sched) = run_sched (st_erase s) sched.
+Proof.
+  induction sched as [|t r IH]; intro s; [reflexivity|].
+  unfold run_sched. cbn [fold_left]. fold (run_sched (step_or_stay s t) r).
+  fold (run_sched (step_or_stay (st_erase s) t) r). rewrite IH. f_equal.
+  unfold step_or_stay. rewrite tstep_erase. destruct (tstep s t); reflexivity.
+Qed.
+
+Lemma init_erase progs ws : st_erase (init progs ws) = init (map (map kerase) progs) ws.
+Proof. unfold st_erase, init. sproj. cbn [map]. rewrite !map_map. reflexivity. Qed.
+
+Lemma erase_ids s : exec_ids (st_erase s) = exec_ids s /\ queue_ids (st_erase s) = queue_ids s.
+Proof.
+  unfold exec_ids, queue_ids, st_erase. sproj. rewrite !map_map. split; apply map_ext; reflexivity.
+Qed.
+
+Lemma tstep_none_erase s t : tstep s t = None <-> tstep (st_erase s) t = None.
+Proof. rewrite tstep_erase. destruct (tstep s t); cbn; split; congruence. Qed.
+
+Lemma panic_value_frame_holds progs progs' ws sched :
+  same_shape progs progs' -> panic_value_frame progs progs' ws sched.
+Proof.
+  intro H. unfold panic_value_frame. cbv zeta.
+  assert (E : st_erase (run_sched (init progs ws) sched) = st_erase (run_sched (init progs' ws) sched)).
+  { rewrite !run_sched_erase, !init_erase. unfold same_shape in H. rewrite H. reflexivity. }
+  split; [exact E|].
+  destruct (erase_ids (run_sched (init progs ws) sched)) as [X1 Q1].
+  destruct (erase_ids (run_sched (init progs' ws) sched)) as [X2 Q2].
+  split; [rewrite <- X1, <- X2, E; reflexivity|]. split; [rewrite <- Q1, <- Q2, E; reflexivity|].
+  split; [exact (f_equal accepted E)|]. split; [exact (f_equal rejected E)|].
+  split; [exact (f_equal alive E)|]. split; [exact (f_equal stopped E)|]. split; [exact (f_equal escaped E)|].
+  intro t. rewrite (tstep_none_erase (run_sched (init progs ws) sched)), (tstep_none_erase (run_sched (init progs' ws) sched)), E.
+  reflexivity.
 Qed.
